@@ -3,7 +3,7 @@ import itertools
 import networkx as nx
 from pverif.harness import condition, patched
 from pverif import symx
-from harness.ffgen import simple_block, block_text_ff, block_text_itp, parse_ff, GRAPHS, residue_graph
+from harness.ffgen import simple_block, ring_block, block_text_ff, block_text_itp, parse_ff, GRAPHS, residue_graph
 import polyply.src.apply_links as al
 from polyply.src.map_to_molecule import MapToMolecule
 from polyply.src.apply_links import ApplyLinks
@@ -30,10 +30,10 @@ LINK_EXCL = """[ exclusions ]
 @condition("C14.exclusions",
            anchors=["polyply.src.map_to_molecule:tag_exclusions", "polyply.src.apply_links:expand_excl", "polyply.src.graph_utils:neighborhood",
                     "polyply.src.map_to_molecule:MapToMolecule.run_molecule", "polyply.src.apply_links:ApplyLinks.run_molecule"],
-           rejects=(), selector_only=True, must_cover=["mixed", "uniform", "explicit block exclusion", "link exclusion", "three distances"],
+           rejects=(), selector_only=True, must_cover=["mixed", "uniform", "explicit block exclusion", "link exclusion", "three distances", "ring block", "explicit link"],
            stubs=["apply_links.tqdm -> plain iteration"],
            outside=["residue graphs / blocks larger than the bound", "exclusion distances above 4"],
-           bounds={"quick": dict(nmax=3, excl=[0, 1, 3], sizes=[1, 3]), "thorough": dict(nmax=4, excl=[0, 2, 4], sizes=[1, 3])},
+           bounds={"quick": dict(nmax=3, excl=[0, 1, 3], sizes=[3, "ring"]), "thorough": dict(nmax=4, excl=[0, 2, 4], sizes=[1, "ring"])},
            budget={"quick": 280, "thorough": 1500})
 def exclusions(sx, B):
     """Real tag_exclusions/MapToMolecule/ApplyLinks(expand_excl, neighborhood) on residue graphs whose residues come from up to three
@@ -49,7 +49,11 @@ def exclusions(sx, B):
     size = {nm: sx.sel("atoms_%s" % nm, B["sizes"]) for nm in used}
     blk_excl = sx.sel("block_exclusion", [False, True])
     link_excl = sx.sel("link_exclusion", [False, True])
-    specs = {nm: simple_block(nm, size[nm], nrexcl=nrexcl[nm], ifdef=False, extra_excl=(blk_excl and nm == "A")) for nm in used}
+    specs = {nm: (ring_block(nm, nrexcl=nrexcl[nm]) if size[nm] == "ring" else
+                  simple_block(nm, size[nm], nrexcl=nrexcl[nm], ifdef=False, extra_excl=(blk_excl and nm == "A"))) for nm in used}
+    if any(v == "ring" for v in size.values()):
+        sx.cover("ring block")
+    explicit = sx.sel("explicit_link", [False, True])
     texts = [("ff", block_text_ff(specs[nm])) for nm in used]
     link_text = ""
     for la in used:
@@ -58,6 +62,11 @@ def exclusions(sx, B):
             if link_excl:
                 link_text += LINK_EXCL.format(a=specs[la].atoms[0][0], b=specs[fi].atoms[-1][0])
     texts.append(("ff", link_text))
+    natoms_total = sum(len(specs[nm].atoms) for nm in names)
+    if explicit and natoms_total >= 4:
+        # a cross-link by atom number between the first and the last atom of the molecule
+        texts.append(("ff", "[ link ]\n[ molmeta ]\nby_atom_id true\n[ bonds ]\n1 %d 1 0.5 500\n" % natoms_total))
+        sx.cover("explicit link")
     ff = parse_ff(texts)
     meta = residue_graph(n, GRAPHS[n][shape], names, [i + 1 for i in range(n)], ff=ff)
     MapToMolecule(ff).run_molecule(meta)
@@ -73,6 +82,8 @@ def exclusions(sx, B):
     g.add_nodes_from(mol.nodes)
     for inter in mol.interactions.get("bonds", []):
         g.add_edge(*inter.atoms)
+    if explicit and natoms_total >= 4:
+        sx.claim(g.has_edge(0, natoms_total - 1), "the explicit link's bond is part of the molecule")
     dist = dict(nx.all_pairs_shortest_path_length(g))
     e_of = {a: nrexcl[mol.nodes[a]["resname"]] for a in mol.nodes}
     expected = set()
@@ -86,7 +97,7 @@ def exclusions(sx, B):
         res_atoms.setdefault(mol.nodes[a]["resid"], []).append(a)
     if blk_excl:
         for rid, atoms in res_atoms.items():
-            if mol.nodes[atoms[0]]["resname"] == "A" and len(atoms) >= 3:
+            if mol.nodes[atoms[0]]["resname"] == "A" and len(atoms) >= 3 and size["A"] != "ring":
                 explicit_expected.add(frozenset((atoms[0], atoms[2])))
                 sx.cover("explicit block exclusion")
     if link_excl:
